@@ -186,6 +186,7 @@ InvPQExtremes       == IsM("prq") => PQExtremes(c.e, c.nl)
 InvAlignUniform     == IsM("prq") => AlignUniform(c.e, c.nl, c.S)
 
 InvNoTie            == IsM("divcurl") => ~PairTie(c.H, c.ppp, c.pos, c.nl)
+InvFastImage        == IsM("divcurl") => \A j \in 2..Len(c.pos) : VfFastIsMinImage(c.H, VSub(c.pos[j], c.pos[1]), c.ppp)
 InvLinearField      == (IsM("divcurl") /\ c.A # << >>) => LinearFieldHasAnalyticDivCurl(c.A, c.H, c.pos, c.nl)
 InvDivCurlShift     == IsM("divcurl") =>
                          DivCurlShiftInvariant(c.H, c.ppp, c.pos, c.u, c.nl,
@@ -226,13 +227,18 @@ CasePrq ==
     align |-> [i \in 1..Len(c.e) |-> QR(Align(c.e, c.nl, i, c.S))],
     pq    |-> IF PQDefined(c.e, c.nl) THEN QR(PQ(c.e, c.nl)) ELSE "undef" ]
 
+DcRow(i) ==
+  LET R   == Bonds(c.H, c.ppp, c.pos, c.nl, i)
+      den == Len(c.nl[i]) * c.S * c.SU
+      cv  == IF c.d = 3 THEN CurlNumB(R, c.u, c.nl, i) ELSE << >>
+  IN  [ div |-> QR(RNorm(DivNumB(R, c.u, c.nl, i), den)),
+        curl |-> IF c.d = 3 THEN [a \in 1..3 |-> QR(RNorm(cv[a], den))] ELSE << >> ]
 CaseDc ==
+  LET rows == [i \in 1..Len(c.pos) |-> DcRow(i)] IN
   [ m |-> "divcurl", id |-> c.id, d |-> c.d, H |-> c.H, ppp |-> c.ppp, S |-> c.S, SU |-> c.SU,
     pos |-> c.pos, u |-> c.u, nl |-> c.nl, A |-> c.A,
-    div  |-> [i \in 1..Len(c.pos) |-> QR(Divergence(c.H, c.ppp, c.pos, c.u, c.nl, i, c.S, c.SU))],
-    curl |-> IF c.d = 3 THEN [i \in 1..Len(c.pos) |-> QRs(CurlVec(c.H, c.ppp, c.pos, c.u, c.nl, i, c.S, c.SU))]
-             ELSE << >> ]
-
+    div  |-> [i \in 1..Len(c.pos) |-> rows[i].div],
+    curl |-> IF c.d = 3 THEN [i \in 1..Len(c.pos) |-> rows[i].curl] ELSE << >> ]
 CaseVib ==
   [ m |-> "vib", id |-> c.id, d |-> c.d, n |-> c.n, S |-> c.S, SO |-> c.SO, om |-> c.om, ev |-> c.ev,
     vib |-> [i \in 1..c.n |-> QR(Vib(c.ev, c.om, c.d, i, c.S, c.SO))] ]
